@@ -11,7 +11,7 @@ from ..dataflow import assignments, expand, expanded_text, guard_text
 from ..interp import Idx, Interp, Obj, Opaque, PyFunc, StoreLog, Unsupported
 from ..model import new_interp
 from ..ops import area_scaled, column_sums, mat_diff
-from ..src import AnalysisError, loc, norm, own_nodes
+from ..src import rename_id, AnalysisError, loc, norm, own_nodes
 from . import c03
 
 SOLVER = "tdgl.solver.solver"
@@ -293,14 +293,14 @@ def terminal_density(ctx):
     kw = {k.arg: k.value for k in tcalls[0].keywords}
     bidx = a[3] if len(a) > 3 else kw.get("boundary_edge_indices")
     ln = a[4] if len(a) > 4 else kw.get("length")
-    stop = ("mesh", "terminal", "xi")
-    bt = expanded_text(fn, bidx, stop=stop).replace(" ", "")
-    lt = expanded_text(fn, ln, stop=stop).replace(" ", "")
-    want_b = "terminal.contains_points((xi*mesh.edge_mesh.centers)[mesh.edge_mesh.boundary_edge_indices],index=True)"
-    want_b2 = "terminal.contains_points(xi*mesh.edge_mesh.centers[mesh.edge_mesh.boundary_edge_indices],index=True)"
-    want_l = f"self.edge_lengths[mesh.edge_mesh.boundary_edge_indices][{want_b}].sum()"
-    want_l2 = f"self.edge_lengths[mesh.edge_mesh.boundary_edge_indices][{want_b2}].sum()"
-    ok = bt in (want_b, want_b2) and lt in (want_l, want_l2)
+    tv = _loop_var_over(fn, "self.terminals")
+    bt = rename_id(expanded_text(fn, bidx, stop=(tv,)), tv, "T").replace(" ", "")
+    lt = rename_id(expanded_text(fn, ln, stop=(tv,)), tv, "T").replace(" ", "")
+    be = "self.mesh.edge_mesh.boundary_edge_indices"
+    want_b = {f"T.contains_points((self.layer.coherence_length*self.mesh.edge_mesh.centers)[{be}],index=True)",
+              f"T.contains_points(self.layer.coherence_length*self.mesh.edge_mesh.centers[{be}],index=True)"}
+    want_l = {f"self.edge_lengths[{be}][{b}].sum()" for b in want_b}
+    ok = bt in want_b and lt in want_l
     ctx.ob("R01.4", "terminal.length == sum of (dimensionful) edge lengths over exactly terminal.boundary_edge_indices",
            ok, detail={"boundary_edge_indices": bt, "length": lt}, where=ft.fq, construct="TerminalInfo length / boundary edges",
            loc=loc(ft, tcalls[0]), message=f"length = {lt}; boundary_edge_indices = {bt}",
@@ -374,3 +374,10 @@ def balance_test(ctx):
                        witness={"input": "terminal_currents={'source': 0.1, 'drain': 0.2, 'top': -0.3} on a 3-terminal device"})
     if not found:
         raise AnalysisError("validate_terminal_currents has no raise guarded by the summed currents")
+
+
+def _loop_var_over(fn, iter_text):
+    for n in own_nodes(fn):
+        if isinstance(n, ast.For) and norm(n.iter) == iter_text and isinstance(n.target, ast.Name):
+            return n.target.id
+    raise AnalysisError(f"no loop over {iter_text}")
